@@ -380,6 +380,13 @@ def inplace_rows(repo):
             for node in ast.walk(fn):
                 if isinstance(node, ast.Call) and any(kw.arg == "out" for kw in node.keywords):
                     rows.append((rel, qn, "out-kwarg", UNKNOWN, False, ast.unparse(node)))
+                # attributes (re)bound by name outside a constructor: setattr(self, ...), self.register_buffer / register_parameter
+                # in a method that runs at evaluation time replace registered state as surely as an in-place write
+                if isinstance(node, ast.Call) and fn.name not in ("__init__", "_initialize", "reset_parameters"):
+                    cal = ast.unparse(node.func)
+                    if (cal == "setattr" and node.args and ast.unparse(node.args[0]) == "self") or \
+                            cal in ("self.register_buffer", "self.register_parameter", "self.__setattr__"):
+                        rows.append((rel, qn, "rebind-attribute", 2, False, ast.unparse(node)))
                 # modules / functionals asked to work in place (nn.Dropout(inplace=True), F.relu(x, inplace=True)): they overwrite
                 # an activation that an earlier operation may have saved for its backward pass
                 if isinstance(node, ast.Call):
